@@ -24,11 +24,19 @@ CONSTANT StrictOrder   \* TRUE: the node never has a tip and an unconfirmed tran
                        \* wallet at the same time (no race between the two notification queues);
                        \* FALSE: any interleaving (the Go select picks at random among ready queues)
 
-VARIABLES wchain, pend, wmem, memp, up
+CONSTANTS InitAbsent,  \* wallets that do not exist in this instance initially (they can be imported)
+          ImportBatch  \* heights covered by one rescan batch (1000 in the code; scaled by a verif hook)
 
-followerVars == <<wchain, pend, wmem, memp, up>>
+VARIABLES wchain, pend, wmem, memp, up,
+          status,   \* per wallet: "absent" | "ready" | "importing" | "removing"   (bucket ws, durable)
+          cursor,   \* per importing wallet: height up to which the rescan has recorded its history (durable)
+          tasks     \* queue of background tasks <<kind, wallet>> (volatile; rebuilt from status on restart)
 
-Ready == Wallets          \* refined in Lifecycle.tla (importing / removing wallets)
+followerVars == <<wchain, pend, wmem, memp, up, status, cursor, tasks>>
+
+Ready == {w \in Wallets : status[w] = "ready"}
+\* wallets whose transactions at height h are on record (live, or already covered by the rescan)
+Tracking(h) == Ready \cup {w \in Wallets : status[w] = "importing" /\ cursor[w] >= h}
 
 Min(a, b) == IF a < b THEN a ELSE b
 
@@ -61,7 +69,11 @@ NewBlocks(wc, wc2)  == {wc2[h] : h \in {i \in DOMAIN wc2 : i > Len(wc) \/ wc2[i]
 
 \* non-coinbase relevant transactions of the disconnected blocks
 RolledBack(wc, wc2) ==
-    {t \in UNION {Range(content[b]) : b \in GoneBlocks(wc, wc2)} : Relevant(t, Ready)}
+    UNION {{t \in Range(content[b]) : Relevant(t, Tracking(Height(b)))} : b \in GoneBlocks(wc, wc2)}
+
+CommonLen(wc, wc2) ==
+    LET same == {i \in DOMAIN wc : i <= Len(wc2) /\ \A j \in 1..i : wc[j] = wc2[j]}
+    IN IF same = {} THEN 0 ELSE CHOOSE i \in same : \A j \in same : j <= i
 
 RECURSIVE Desc(_, _)
 Desc(p, R) ==
@@ -154,6 +166,9 @@ FollowerInit ==
     /\ wmem = Base
     /\ memp = {}
     /\ up = TRUE
+    /\ status = [w \in Wallets |-> IF w \in InitAbsent THEN "absent" ELSE "ready"]
+    /\ cursor = [w \in Wallets |-> 0]
+    /\ tasks = <<>>
 
 HandleBlock ==
     /\ up
@@ -164,8 +179,12 @@ HandleBlock ==
           /\ pend'   = PendAfter(pend, wchain, wc2)
           \* the in-memory tip becomes nb exactly when the Update succeeded
           /\ wmem'   = IF nb \in Range(wchain) \/ OnBest(nb) THEN nb ELSE wmem
+          \* disconnectBlock pulls the rescan cursor of importing wallets back below the fork
+          /\ cursor' = [w \in Wallets |->
+                          IF status[w] = "importing" /\ CommonLen(wchain, wc2) < Len(wchain)
+                          THEN Min(cursor[w], CommonLen(wchain, wc2)) ELSE cursor[w]]
     /\ ntfB' = Tail(ntfB)
-    /\ UNCHANGED <<parent, content, best, pool, ntfT, memp, up>>
+    /\ UNCHANGED <<parent, content, best, pool, ntfT, memp, up, status, tasks>>
 
 HandleTx ==
     /\ up
@@ -176,7 +195,7 @@ HandleTx ==
             /\ memp' = memp \cup {t}
        ELSE UNCHANGED <<pend, memp>>
     /\ ntfT' = Tail(ntfT)
-    /\ UNCHANGED <<parent, content, best, pool, ntfB, wchain, wmem, up>>
+    /\ UNCHANGED <<parent, content, best, pool, ntfB, wchain, wmem, up, status, cursor, tasks>>
 
 (***************************************************************************)
 (* Crash and restart (C06).  The wallet is part of the node process: a     *)
@@ -215,32 +234,114 @@ CatchUp(wc, p, n) ==
 CatchUpSteps(wc) == IF Len(best) > Len(wc) THEN Len(best) - Len(wc)
                     ELSE IF NeedsTipStep(wc) THEN 1 ELSE 0
 
+\* background work that the persisted status says is unfinished
+TaskSet == {<<"import", w>> : w \in {x \in Wallets : status[x] = "importing"}} \cup
+           {<<"remove", w>> : w \in {x \in Wallets : status[x] = "removing"}}
+RECURSIVE Perms(_)
+Perms(S) == IF S = {} THEN {<<>>} ELSE UNION {{<<x>> \o q : q \in Perms(S \ {x})} : x \in S}
+\* a catch-up that reorganises pulls rescan cursors back like any block step
+CursorAfter(wc, wc2) == [w \in Wallets |->
+                           IF status[w] = "importing" /\ CommonLen(wc, wc2) < Len(wc)
+                           THEN Min(cursor[w], CommonLen(wc, wc2)) ELSE cursor[w]]
+
 Crash ==
     /\ up
     /\ up' = FALSE
     /\ ntfB' = <<>> /\ ntfT' = <<>> /\ pool' = {}
-    /\ memp' = {} /\ wmem' = 0
-    /\ UNCHANGED <<parent, content, best, wchain, pend>>
+    /\ memp' = {} /\ wmem' = 0 /\ tasks' = <<>>
+    /\ UNCHANGED <<parent, content, best, wchain, pend, status, cursor>>
 
 Restart ==
     /\ ~up
     /\ LET r == CatchUp(wchain, pend, CatchUpSteps(wchain))
        IN /\ wchain' = r[1] /\ pend' = r[2]
           /\ wmem' = IF r[1] = <<>> THEN 0 ELSE Last(r[1])
+          /\ cursor' = CursorAfter(wchain, r[1])
     /\ up' = TRUE
-    /\ UNCHANGED <<parent, content, best, pool, ntfB, ntfT, memp>>
+    \* the worker re-queues unfinished background work from the persisted wallet status
+    /\ tasks' \in Perms(TaskSet)     \* in the order GetAllWalletStatus yields them
+    /\ UNCHANGED <<parent, content, best, pool, ntfB, ntfT, memp, status>>
 
 RestartCrash(k) ==
     /\ ~up
     /\ k \in 1..CatchUpSteps(wchain)
     /\ LET r == CatchUp(wchain, pend, k)
-       IN wchain' = r[1] /\ pend' = r[2]
-    /\ UNCHANGED <<parent, content, best, pool, ntfB, ntfT, memp, wmem, up>>
+       IN /\ wchain' = r[1] /\ pend' = r[2]
+          /\ cursor' = CursorAfter(wchain, r[1])
+    /\ UNCHANGED <<parent, content, best, pool, ntfB, ntfT, memp, wmem, up, status, tasks>>
+
+(***************************************************************************)
+(* Wallet life cycle (C07, C08): background import and removal.            *)
+(*                                                                         *)
+(* The API call commits the status change and queues a task (refused when  *)
+(* three tasks wait).  The worker goroutine takes one task at a time; each *)
+(* database update of a task runs between a suspend and a resume of the    *)
+(* handler, so it is atomic with respect to block steps, and block steps   *)
+(* interleave freely BETWEEN two updates of a task.                        *)
+(*  ImportStep : one rescan batch of the next ImportBatch heights; when    *)
+(*               the cursor reaches the wallet's tip the wallet is ready.  *)
+(*  RemoveStep : deletes every record of the wallet; the wallet is gone.   *)
+(***************************************************************************)
+Busy == Len(tasks) >= 3
+
+Import(w) ==
+    /\ up /\ status[w] = "absent" /\ ~Busy
+    /\ status' = [status EXCEPT ![w] = "importing"]
+    /\ cursor' = [cursor EXCEPT ![w] = 0]
+    /\ tasks' = Append(tasks, <<"import", w>>)
+    /\ UNCHANGED <<chainVars, wchain, pend, wmem, memp, up>>
+
+Remove(w) ==
+    /\ up /\ status[w] = "ready" /\ ~Busy
+    /\ status' = [status EXCEPT ![w] = "removing"]
+    /\ tasks' = Append(tasks, <<"remove", w>>)
+    /\ UNCHANGED <<chainVars, wchain, pend, wmem, memp, up, cursor>>
+
+\* does block b contain a transaction (coinbase included) that concerns a wallet of W ?
+ConcernsBlock(b, W) ==
+    \/ CbOut[b].owner \in W
+    \/ \E t \in Range(content[b]) : Relevant(t, W)
+
+(***************************************************************************)
+(* A rescan batch reads heights cursor+1 .. stop from the NODE's chain     *)
+(* database.  It first checks that the node still has, at every height of  *)
+(* the range, the block the wallet has applied; if a reorganisation that   *)
+(* the handler has not processed yet touches the range, the batch has no   *)
+(* effect and is retried later (ErrImportingContinuable).                  *)
+(***************************************************************************)
+ImportConflict(w, stop) ==
+    \E h \in (cursor[w] + 1)..stop : ~(h <= Len(best) /\ best[h] = wchain[h])
+
+ImportStep ==
+    /\ up /\ tasks # <<>> /\ Head(tasks)[1] = "import"
+    /\ LET w == Head(tasks)[2]
+           top == Len(wchain)
+           stop == Min(cursor[w] + ImportBatch, top)
+       IN IF ~ImportConflict(w, stop)
+          THEN /\ cursor' = [cursor EXCEPT ![w] = stop]
+               /\ IF stop = top
+                  THEN /\ status' = [status EXCEPT ![w] = "ready"]
+                       /\ tasks' = Tail(tasks)
+                  ELSE /\ UNCHANGED status
+                       /\ tasks' = Append(Tail(tasks), Head(tasks))
+          ELSE /\ UNCHANGED <<status, cursor>>
+               /\ tasks' = Append(Tail(tasks), Head(tasks))
+    /\ UNCHANGED <<chainVars, wchain, pend, wmem, memp, up>>
+
+RemoveStep ==
+    /\ up /\ tasks # <<>> /\ Head(tasks)[1] = "remove"
+    /\ LET w == Head(tasks)[2] IN
+       /\ status' = [status EXCEPT ![w] = "absent"]
+       /\ tasks' = Tail(tasks)
+       \* pending transactions that pay the wallet and no other wallet of this instance go with it
+       \* (RemoveRelevantTx finds them through the wallet's pending credits)
+       /\ pend' = {t \in pend : ~PaysTo(t, {w}) \/ PaysTo(t, {x \in Wallets \ {w} : status[x] # "absent"})}
+    /\ UNCHANGED <<chainVars, wchain, wmem, memp, up, cursor>>
 
 (***************************************************************************)
 (* Properties                                                              *)
 (***************************************************************************)
-Quiescent == up /\ ntfB = <<>> /\ ntfT = <<>>
+Quiescent == up /\ ntfB = <<>> /\ ntfT = <<>> /\ tasks = <<>>
 
 \* C01 (sync part): once every notification is processed the wallet is on the best chain
 \* C06: ... also after any number of crashes and restarts
